@@ -2,7 +2,8 @@
 the real `fix_deprecated` / `deprecated list` command, snapshots of the jobs tree.
 
 usage: python -m xv.impl.c20_worker <in.json> <out.json>
-in:  {"cases": [{"lib": lib-spec (xv.gen.cfggen format, unique package), "jobs": [jobspec], "ops": [op]}]}
+in:  {"mode": "save"|"load", "root": dir, "libs": [lib], "cases": [{"id","lib","graph","sel","root_is_task"}]}   (part (c), see below)
+  or {"cases": [{"lib": lib-spec (xv.gen.cfggen format, unique package), "jobs": [jobspec], "ops": [op]}]}
 jobspec: {"cls": task class, "x": int, "c": null|{"cls","a"}, "cs": [{"cls","a"}], "init": [int]}
 op:  {"op":"run","jobs":[i]} | {"op":"deprecate","classes":[name]} | {"op":"fix","fix":b,"cleanup":b,"via":"api"|"cli","rel":b,
       "interrupt":null|n} | {"op":"rmdir","data":d} | {"op":"rmparams","data":d} | {"op":"breakparams","data":d} | {"op":"resubmit","jobs":[i]}
@@ -324,9 +325,156 @@ def run_case(real, root: Path, case):
         sys.modules.pop(case["lib"]["pkg"], None)
     return rec
 
+# ======================================================================================= part (c): saved before the deprecation, loaded after it
+# two processes per shard: mode "save" (version 1 of every generated package: the Old classes are plain classes with their own
+# identifier) builds the graphs and saves them; mode "load" (version 2: the same source with `@deprecate`) loads them.
+
+
+def _ids(o):
+    return [o.__xpm__.full_identifier.all.hex(), o.__xpm__.raw_identifier.all.hex()]
+
+
+def save_case(mod, root: Path, case):
+    """builds the graph under version 1 and saves it through the three public ways"""
+    import logging
+
+    from experimaestro import RunMode, experiment, save
+    from experimaestro.core.context import SerializationContext
+    from experimaestro.core.serialization import state_dict
+
+    from . import cfgbuild
+
+    rec = {"error": None, "saved": {}, "old": None}
+    d = root / "saved" / str(case["id"])
+    d.mkdir(parents=True)
+    try:
+        objs = cfgbuild.build_graph(mod, case["graph"])
+        rec["old"] = [_ids(o) for o in objs]
+        try:  # state_dict of the list of all nodes: every node can be addressed after loading
+            (d / "state.json").write_text(json.dumps(state_dict(SerializationContext(), list(objs))))
+            rec["saved"]["state_dict"] = True
+        except Exception as e:
+            rec["saved"]["state_dict"] = f"{type(e).__name__}: {e}"[:200]
+        try:  # experimaestro.save of the root
+            (d / "save").mkdir()
+            save(objs[0], d / "save")
+            rec["saved"]["save"] = True
+        except Exception as e:
+            rec["saved"]["save"] = f"{type(e).__name__}: {e}"[:200]
+        if case.get("root_is_task"):
+            try:  # params.json written for a job (nothing is run)
+                objs2 = cfgbuild.build_graph(mod, case["graph"])
+                logging.disable(logging.CRITICAL)
+                with experiment(d / "ws", "xv", port=-1, run_mode=RunMode.GENERATE_ONLY):
+                    objs2[0].submit(init_tasks=list(objs2[0].__xpm__.init_tasks))
+                jp = Path(objs2[0].__xpm__.job.path)
+                if (jp / "params.json").is_file():
+                    (d / "jobdir").write_text(str(jp))
+                    rec["saved"]["params.json"] = True
+                else:
+                    rec["saved"]["params.json"] = "no params.json"
+            except Exception as e:
+                rec["saved"]["params.json"] = f"{type(e).__name__}: {e}"[:200]
+    except Exception as e:
+        rec["error"] = f"{type(e).__name__}: {e}"
+        rec["trace"] = traceback.format_exc()[-1500:]
+    return rec
+
+
+def walk_pairs(fresh, loaded, index, out, seen):
+    """parallel structural walk: (index of the fresh node, loaded node) for everything reachable"""
+    from experimaestro import Config
+
+    if isinstance(fresh, Config) and isinstance(loaded, Config):
+        if id(fresh) in seen:
+            return
+        seen.add(id(fresh))
+        out.append((index[id(fresh)], loaded))
+        fx, lx = fresh.__xpm__, loaded.__xpm__
+        for name in fresh.__xpmtype__.arguments:
+            walk_pairs(fx.values.get(name), lx.values.get(name), index, out, seen)
+        for a, b in zip(fx.pre_tasks, lx.pre_tasks):
+            walk_pairs(a, b, index, out, seen)
+        for a, b in zip(fx.init_tasks, lx.init_tasks):
+            walk_pairs(a, b, index, out, seen)
+        if fx.task is not None and lx.task is not None:
+            walk_pairs(fx.task, lx.task, index, out, seen)
+    elif isinstance(fresh, list) and isinstance(loaded, list):
+        for a, b in zip(fresh, loaded):
+            walk_pairs(a, b, index, out, seen)
+    elif isinstance(fresh, dict) and isinstance(loaded, dict):
+        for k in fresh:
+            if k in loaded:
+                walk_pairs(fresh[k], loaded[k], index, out, seen)
+
+
+def load_case(mod, root: Path, case):
+    """under version 2: the same graph built fresh (expected identifiers) and the saved ones loaded"""
+    from experimaestro.core.serialization import from_state_dict, from_task_dir, load
+
+    from . import cfgbuild
+
+    rec = {"error": None, "variants": {}, "wrap": [], "load_errors": {}}
+    d = root / "saved" / str(case["id"])
+    try:
+        fresh = cfgbuild.build_graph(mod, case["graph"])
+        index = {id(o): i for i, o in enumerate(fresh)}
+        rec["expected"] = [_ids(o) for o in fresh]
+        rec["nodes"] = cfgbuild.model_graph(fresh)
+        loaded_nodes = None
+        if (d / "state.json").is_file():
+            try:
+                loaded_nodes = from_state_dict(json.loads((d / "state.json").read_text()))
+                rec["variants"]["state_dict"] = [[k] + _ids(o) for k, o in enumerate(loaded_nodes)]
+            except Exception as e:
+                rec["load_errors"]["state_dict"] = f"{type(e).__name__}: {e}"[:300]
+        for name, loader in (("save", lambda: load(d / "save")),
+                             ("params.json", lambda: from_task_dir(Path((d / "jobdir").read_text())))):
+            if not ((d / "save" / "definition.json").is_file() if name == "save" else (d / "jobdir").is_file()):
+                continue
+            try:
+                pairs = []
+                walk_pairs(fresh[0], loader(), index, pairs, set())
+                rec["variants"][name] = [[k] + _ids(o) for k, o in pairs]
+            except Exception as e:
+                rec["load_errors"][name] = f"{type(e).__name__}: {e}"[:300]
+        # a loaded node plugged into a freshly built task (directly, in a list, in a dict)
+        if loaded_nodes is not None:
+            for k in case["sel"]:
+                try:
+                    got = mod.Wrap(item=loaded_nodes[k], items=[loaded_nodes[k]], named={"k": loaded_nodes[k]})
+                    want = mod.Wrap(item=fresh[k], items=[fresh[k]], named={"k": fresh[k]})
+                    rec["wrap"].append([k, _ids(got)[0], _ids(want)[0]])
+                except Exception as e:
+                    rec["load_errors"][f"wrap{k}"] = f"{type(e).__name__}: {e}"[:300]
+    except Exception as e:
+        rec["error"] = f"{type(e).__name__}: {e}"
+        rec["trace"] = traceback.format_exc()[-1500:]
+    return rec
+
+
+def main_versions(data):
+    import logging
+    import warnings
+
+    logging.disable(logging.CRITICAL)
+    warnings.filterwarnings("ignore")
+    from . import cfgbuild
+
+    root = Path(data["root"])
+    root.mkdir(parents=True, exist_ok=True)
+    mods = [cfgbuild.load_library(lib, root) for lib in data["libs"]]  # (re)writes <root>/<pkg>/__init__.py: version 1 or 2
+    out = []
+    for case in data["cases"]:
+        f = save_case if data["mode"] == "save" else load_case
+        out.append(f(mods[case["lib"]], root, case))
+    Path(sys.argv[2]).write_text(json.dumps(out))
+
 
 def main():
     data = json.loads(Path(sys.argv[1]).read_text())
+    if data.get("mode") in ("save", "load"):
+        return main_versions(data)
     root = Path(tempfile.mkdtemp(prefix="xv-c20-")).resolve()
     out = []
     import signal
